@@ -13,7 +13,12 @@ RULE = ('single calls of every function of the collections/queries modules '
         'sets; lambdas from families of predicates, selectors and two-'
         'argument functions; integer arguments in [-len-2, len+2]; pipelines '
         'of up to 4 chained operators ending in an optional reducer; '
-        'algebraic laws as extra entries; non-trivial = non-empty collection '
+        'algebraic laws as extra entries; collections with nulls for the '
+        'null-safe entries; for the entries whose model is parametric in the '
+        'elements (detected on the model: two random injective renamings '
+        'give renamed results; 76 entries) collections of strings, floats, '
+        '20-digit integers, frozen dictionaries and mixtures of them, '
+        'expected = the renamed model result; non-trivial = non-empty collection '
         'and (boundary argument, or duplicate/tie in the data, or one-shot '
         'iterator input, or a pipeline of >=2 operators); distinct = '
         'distinct case')
@@ -26,6 +31,11 @@ ASSUMPTIONS = [
     'negative positions of insert/insertMany are outside the '
     'documented domain and are not judged (excluded, counted)',
     'where the model predicts failure any exception is accepted',
+    'renamed collections use truthy labels only (a model that looks at '
+    'truthiness passes the parametricity test on the renamed integers) and '
+    'no list-valued labels (flatten/list()/selectMany look inside lists by '
+    'design); expected results with a dictionary as dictionary key are '
+    'excluded (C10 known finding)',
 ]
 
 SCALAR_SEL = [k for k in M.SEL if k != 'pair']
@@ -238,8 +248,159 @@ def check_set(run, case):
            'set:' + case['fn'], e.char)
 
 
+# ---- relabelling: element values other than small integers ----------------
+#
+# Many entries do not look inside the elements: they move, drop, repeat or
+# compare them for equality.  For those the model is *parametric*: renaming
+# the elements by an injective function commutes with it.  That is detected
+# on the model itself (two random injective renamings into 1000.. must give
+# results that are renamings of each other); for the detected entries yaql is
+# run on collections of strings, floats, large integers, frozen dictionaries
+# and mixtures, and must return the renamed model result.
+
+LABELS = {
+    'str': lambda i: 's%d' % i,
+    'float': lambda i: i + 0.5,
+    'bigint': lambda i: 10 ** 20 + i,
+    'dict': lambda i: yutils.FrozenDict({'k': i}),
+    'mixed': lambda i: ('s%d' % i, i + 0.25, 5000 + i,
+                        yutils.FrozenDict({'k': i}))[i % 4],
+    # (no falsy labels: the renamed integers are all truthy, so a model that
+    # looks at truthiness - all(), any() without predicate - still passes
+    # the parametricity test)
+    'strs': lambda i: (' ', 's', 'S', '0', 's ', '\u00e9', 'e\u0301')[i + 2]
+    if -2 <= i <= 4 else 'x%d' % i,
+}
+_VALUE_ARGS = ('x', 'y', 'o', 'c2')
+
+
+def _rename(v, f):
+    if isinstance(v, bool) or v is None:
+        return v
+    if isinstance(v, int):
+        return f(v) if v >= 1000 else v
+    if isinstance(v, (list, tuple)):
+        return [_rename(i, f) for i in v]
+    if isinstance(v, dict):
+        return {_rename(k, f): _rename(w, f) for k, w in v.items()}
+    if isinstance(v, (set, frozenset)):
+        return {_rename(i, f) for i in v}
+    return v
+
+
+def _dict_keyed_by_container(v):
+    if isinstance(v, dict):
+        return any(isinstance(k, (dict, yutils.FrozenDict)) for k in v) or \
+            any(_dict_keyed_by_container(w) for w in v.values())
+    if isinstance(v, (list, tuple)):
+        return any(_dict_keyed_by_container(i) for i in v)
+    return False
+
+
+def _shifted(e, L, args, pi, kind='tuple'):
+    a = dict(args)
+    for k in _VALUE_ARGS:
+        if k in a:
+            a[k] = [pi[i] for i in a[k]] if isinstance(a[k], list) \
+                else pi[a[k]]
+    return _model(e.model, [pi[i] if i is not None else None for i in L],
+                  _env(a, {}, L, kind))
+
+
+_PARAM = {}
+
+
+def parametric_entries():
+    if _PARAM:
+        return _PARAM['names']
+    import random
+    rnd = random.Random(20261002)
+    dom = list(range(-2, 5))
+    names = []
+    for fn in sorted(M.ENTRIES):
+        e = M.ENTRIES[fn]
+        if '{' in e.template or 'tree' in e.template or \
+                not set(e.args) <= {'n', 'm', 'x', 'y', 'o', 'c2'}:
+            continue
+        ok, informative = True, 0
+        for _ in range(60):
+            L = [rnd.choice(dom + ([None] if e.elems == 'intnull' else []))
+                 for _ in range(rnd.randint(0, 7))]
+            args = {}
+            for a in e.args:
+                if a == 'n':
+                    args[a] = rnd.randint(-2, len(L) + 2)
+                elif a == 'm':
+                    args[a] = rnd.randint(-1, 4)
+                elif a in ('x', 'y'):
+                    args[a] = rnd.choice(dom)
+                else:
+                    args[a] = [rnd.choice(dom) for _ in range(
+                        rnd.randint(0, 4))]
+            p1 = dict(zip(dom, rnd.sample(range(1000, 1007), 7)))
+            p2 = dict(zip(dom, rnd.sample(range(1000, 1007), 7)))
+            try:
+                r1 = _shifted(e, L, args, p1)
+                r2 = _shifted(e, L, args, p2)
+                inv1 = {v: k for k, v in p1.items()}
+                if r1[0] != r2[0]:
+                    ok = False
+                elif r1[0] == 'ok':
+                    m12 = _rename(r1[1], lambda v: p2[inv1[v]])
+                    if not same(m12, r2[1]):
+                        ok = False
+                    if L:
+                        informative += 1
+            except Exception:   # noqa
+                ok = False
+            if not ok:
+                break
+        if ok and informative >= 10:
+            names.append(fn)
+    _PARAM['names'] = names
+    return names
+
+
+def check_relabel(run, case):
+    fn = case['fn']
+    if fn not in parametric_entries():
+        run.exclude('model of this entry is not parametric in the elements')
+        return
+    e = M.ENTRIES[fn]
+    L = list(case['c'])
+    kind = case['ckind']
+    f = LABELS[case['label']]
+    args = {k: common.dec(v) for k, v in case.get('args', {}).items()}
+    pi = {i: 1000 + (i + 2) for i in range(-2, 5)}
+    inv = {v: k for k, v in pi.items()}
+    exp = _shifted(e, L, args, pi, kind)
+    if exp[0] == 'ok':
+        exp = ('ok', _rename(exp[1], lambda v: f(inv[v])))
+        if _dict_keyed_by_container(exp[1]):
+            run.exclude('expected result has a dictionary as dictionary key '
+                        '(cannot be finalised: known finding of C10)')
+            return
+    binds = {}
+    for k, v in args.items():
+        if k in ('o', 'c2'):
+            binds[k] = tuple(f(i) for i in v)
+        elif k in ('x', 'y'):
+            binds[k] = f(v)
+        else:
+            binds[k] = v
+    real = [f(i) if i is not None else None for i in L]
+    binds['c'] = _materialise(kind, real)
+    got = _evaluate(e.template, binds)
+    run.case(case, _nontrivial(L, kind, args),
+             cls=['relabelled', 'label=' + case['label'], 'fn=' + fn])
+    _judge(run, case, '%s with c=%r(%s) %r' % (
+        e.template, real, kind, {k: v for k, v in binds.items()
+                                 if k != 'c'}), exp, got,
+        '%s/label:%s' % (fn, case['label']), e.char)
+
+
 REPLAY = {'single': check_single, 'pipeline': check_pipeline,
-          'dict': check_dict, 'set': check_set}
+          'dict': check_dict, 'set': check_set, 'relabel': check_relabel}
 
 # --------------------------------------------------------------------------
 
@@ -284,6 +445,20 @@ def single_cases(draw):
     args, lam = draw(_args_for(e, L, fn))
     return {'fn': fn, 'c': L, 'ckind': draw(st.sampled_from(e.kinds)),
             'args': {k: common.enc(v) for k, v in args.items()}, 'lam': lam}
+
+
+@st.composite
+def relabel_cases(draw):
+    fn = draw(st.sampled_from(parametric_entries()))
+    e = M.ENTRIES[fn]
+    L = draw(lists)
+    if e.elems == 'intnull':
+        L = draw(st.lists(st.one_of(elems, st.none()), max_size=7))
+    args, lam = draw(_args_for(e, [x for x in L if x is not None], fn))
+    return {'kind': 'relabel', 'fn': fn, 'c': L,
+            'ckind': draw(st.sampled_from(e.kinds)),
+            'label': draw(st.sampled_from(sorted(LABELS))),
+            'args': {k: common.enc(v) for k, v in args.items()}}
 
 
 @st.composite
@@ -361,6 +536,9 @@ def _shard(run, which, n, shard):
     elif which == 'pipeline':
         run.hyp('pipelines', pipeline_cases(), lambda c: check_pipeline(
             run, _normalise_pipe(c)), n, shard=shard)
+    elif which == 'relabel':
+        run.hyp('relabelled', relabel_cases(), lambda c: check_relabel(
+            run, c), n, shard=shard)
     elif which == 'dict':
         run.hyp('dicts', dict_cases(), lambda c: check_dict(run, c), n,
                 shard=shard)
@@ -399,9 +577,10 @@ def run(run):
     jobs = []
     for which, nq, nf in (('single', 6000, 160000),
                           ('pipeline', 1600, 50000), ('dict', 1200, 30000),
-                          ('set', 800, 20000)):
+                          ('set', 800, 20000), ('relabel', 3000, 80000)):
         for i in range(k):
             jobs.append((which, (nf if full else nq) // k, i))
     run.shards(_shard, jobs)
+    run.extra['entries_with_parametric_model'] = len(parametric_entries())
     run.extra['functions_modelled'] = (len(M.ENTRIES) + len(M.DICT_ENTRIES)
                                        + len(M.SET_ENTRIES))
